@@ -166,10 +166,8 @@ class TipperSurvey(FEMSurvey, AirborneEMSurvey):
 
     @property
     def default_units(self) -> list[str]:
-        """Accepted time units. Must be one of "Seconds (s)",
-        "Milliseconds (ms)", "Microseconds (us)" or "Nanoseconds (ns)"
-        """
-        return self.__UNITS
+        """Accepted frequency units, as for any frequency-domain survey."""
+        return super().default_units
 
 
 class TipperReceivers(TipperSurvey, Curve):  # pylint: disable=too-many-ancestors
